@@ -28,8 +28,9 @@ type GroupDesc struct {
 }
 
 type groupFile struct {
-	what   string
-	groups []GroupDesc
+	what    string
+	groups  []GroupDesc
+	noModel bool // whether a rule loads depends on something its description does not say (the imports of its group)
 }
 
 const dslPrelude = "package gorules\n\nimport \"github.com/quasilyte/go-ruleguard/dsl\"\n\nconst (\n\tcA = \"a\"\n\tcB = \"b\"\n\tc4 = 4\n\tc8 = 8\n)\n\n"
@@ -120,12 +121,12 @@ func groupCatalogue(seed int64) ([]groupFile, error) {
 	shapes := func(what string, pre string, r RuleDesc, has, lacks [][]Alt, mixed []Alt) {
 		g := func(rules ...RuleDesc) GroupDesc { return GroupDesc{Pre: pre, Rules: rules} }
 		out = append(out,
-			groupFile{what + ": the second rule of the group repeats the clauses over a pattern that does not bind the variable", []GroupDesc{g(r.with(has[0]), r.with(lacks[0]))}},
-			groupFile{what + ": one alternative of the second rule does not bind the variable", []GroupDesc{g(r.with(has[0]), r.with(mixed))}},
-			groupFile{what + ": the third rule does not bind the variable", []GroupDesc{g(r.with(has[0]), r.with(has[1]), r.with(lacks[1]))}},
-			groupFile{what + ": every rule binds the variable (control)", []GroupDesc{g(r.with(has[0]), r.with(has[1]))}},
-			groupFile{what + ": the rule of the next group does not bind the variable", []GroupDesc{g(r.with(has[0])), g(r.with(lacks[0]))}},
-			groupFile{what + ": the first rule does not bind the variable, the second does", []GroupDesc{g(r.with(lacks[0]), r.with(has[0]))}},
+			groupFile{what + ": the second rule of the group repeats the clauses over a pattern that does not bind the variable", []GroupDesc{g(r.with(has[0]), r.with(lacks[0]))}, false},
+			groupFile{what + ": one alternative of the second rule does not bind the variable", []GroupDesc{g(r.with(has[0]), r.with(mixed))}, false},
+			groupFile{what + ": the third rule does not bind the variable", []GroupDesc{g(r.with(has[0]), r.with(has[1]), r.with(lacks[1]))}, false},
+			groupFile{what + ": every rule binds the variable (control)", []GroupDesc{g(r.with(has[0]), r.with(has[1]))}, false},
+			groupFile{what + ": the rule of the next group does not bind the variable", []GroupDesc{g(r.with(has[0])), g(r.with(lacks[0]))}, false},
+			groupFile{what + ": the first rule does not bind the variable, the second does", []GroupDesc{g(r.with(lacks[0]), r.with(has[0]))}, false},
 		)
 	}
 	// every pattern binds y (the clauses may refer to it as well)
@@ -167,7 +168,7 @@ func groupCatalogue(seed int64) ([]groupFile, error) {
 		for _, a := range []Atom{right, swapped} {
 			r := RuleDesc{Report: "msg", Where: a.Src, Atoms: []Atom{a}}
 			out = append(out, groupFile{"Where(" + a.Src + "): the second rule of the group repeats the clauses over a pattern that does not bind the variable",
-				[]GroupDesc{{Rules: []RuleDesc{r.with(has[0]), r.with(lacks[0])}}}})
+				[]GroupDesc{{Rules: []RuleDesc{r.with(has[0]), r.with(lacks[0])}}}, false})
 		}
 	}
 	// the argument of Type.IdenticalTo
@@ -192,9 +193,20 @@ func groupCatalogue(seed int64) ([]groupFile, error) {
 	sr := RuleDesc{Report: "msg", Where: txt.Src, Atoms: []Atom{txt}}
 	crl := cr.with(clacks[0])
 	out = append(out,
-		groupFile{"a comment rule repeats the Where() of a syntax rule; its pattern has no such group", []GroupDesc{{Rules: []RuleDesc{sr.with(has[0]), crl}}}},
-		groupFile{"a syntax rule repeats the Where() of a comment rule; its pattern does not bind the variable", []GroupDesc{{Rules: []RuleDesc{cr.with(chas[0]), sr.with(lacks[0])}}}},
-		groupFile{"a comment rule and a syntax rule with the same Where(), both bind the variable (control)", []GroupDesc{{Rules: []RuleDesc{cr.with(chas[0]), sr.with(has[0])}}}},
+		groupFile{"a comment rule repeats the Where() of a syntax rule; its pattern has no such group", []GroupDesc{{Rules: []RuleDesc{sr.with(has[0]), crl}}}, false},
+		groupFile{"a syntax rule repeats the Where() of a comment rule; its pattern does not bind the variable", []GroupDesc{{Rules: []RuleDesc{cr.with(chas[0]), sr.with(lacks[0])}}}, false},
+		groupFile{"a comment rule and a syntax rule with the same Where(), both bind the variable (control)", []GroupDesc{{Rules: []RuleDesc{cr.with(chas[0]), sr.with(has[0])}}}, false},
+	)
+	// the import table of a group (m.Import) is the group's own: a type pattern that names a package resolves it through the
+	// imports of ITS group, not through what an earlier group -- or an earlier Load -- imported
+	imp := "m.Import(`example.com/a/foo`)" // a package the default table of standard packages does not know (harness/fake/c20afoo)
+	lst := Atom{Src: "m[\"x\"].Type.Is(`*foo.T`)", Vars: []string{"x"}, Uses: [][2]string{{"VarTypeIs", "x"}}, Extra: []string{}}
+	lr := RuleDesc{Report: "msg", Where: lst.Src, Atoms: []Atom{lst}}.with(has[0])
+	out = append(out,
+		groupFile{"m.Import: the next group uses the package without importing it", []GroupDesc{{Pre: imp, Rules: []RuleDesc{lr}}, {Rules: []RuleDesc{lr}}}, true},
+		groupFile{"m.Import: the first group uses the package without importing it, the next one imports it", []GroupDesc{{Rules: []RuleDesc{lr}}, {Pre: imp, Rules: []RuleDesc{lr}}}, true},
+		groupFile{"m.Import: both groups import the package (control)", []GroupDesc{{Pre: imp, Rules: []RuleDesc{lr}}, {Pre: imp, Rules: []RuleDesc{lr}}}, true},
+		groupFile{"m.Import: three groups, the one in the middle does not import the package", []GroupDesc{{Pre: imp, Rules: []RuleDesc{lr}}, {Rules: []RuleDesc{lr}}, {Pre: imp, Rules: []RuleDesc{lr}}}, true},
 	)
 	// templates: the variable a template interpolates must be bound by every alternative of ITS rule
 	tr := RuleDesc{Report: "$x is bad", Suggest: "h($x)", Atoms: []Atom{}}
@@ -270,7 +282,7 @@ func groupRandom(rng *rand.Rand, fset *token.FileSet, n int) []groupFile {
 			}
 			gs = append(gs, g)
 		}
-		out = append(out, groupFile{"generated", gs})
+		out = append(out, groupFile{"generated", gs, false})
 	}
 	return out
 }
